@@ -130,7 +130,7 @@ let handle (cmd : string) (args : t list) : t option =
     Some (m_outcome (fun (a, b) -> L (List.map sexp_of_node (canon_an_list [a; b])))
             (resolve_conflicts (cfg_of c) (node_of_sexp l) (node_of_sexp r)))
   | "scan-anchors", [d] ->
-    Some (L (List.map (fun (k, _) -> s k) (scan_anchors (node_of_sexp d) [])))
+    Some (L (List.map (fun (k, _) -> s k) (an_scan_anchors (node_of_sexp d) [])))
   | "unique-anchor", [a; L known] ->
     Some (m_outcome s (calc_unique_anchor (str_atom a) (List.map str_atom known)))
   | "node-eq", [a; b] -> Some (bs (node_eq (node_of_sexp a) (node_of_sexp b)))
